@@ -1,4 +1,5 @@
 import MdsVerif.Model.Stree
+import MdsVerif.Gen.Cursor
 /-!
 # Model of `stree.Cursor` (stree/cursor.go, `Tree.Cursor` / `Tree.Root` of stree/stree.go)
 
@@ -8,6 +9,13 @@ The Go cursor is `path []*node`, the node pointers from the root to the current 
 model keeps the root subtree and the list of *directions* taken (`Pos`); the Go path is the list
 of subtrees along the directions (`Pos.path`), so `len(c.path) = dirs.length + 1`, `c.path[i]` is
 `sub root (dirs.take i)` and the step from `c.path[j]` to `c.path[j+1]` is `dirs[j]`.
+
+Which child `findNext`/`findPrev` test first, which child link their walk-up loops compare with, which way
+`Next`/`Prev`/`Min`/`Max` descend, which child `Left`/`Right`/`HasLeft`/`HasRight` look at, the
+`HasNext`/`HasPrev` formula, the truncation test and length of `Next`/`Prev`, `HasParent`'s test and `Up`'s
+new length are definitions of `MdsVerif.Gen.Cursor`, which `extract/cursor.go` regenerates from cursor.go on
+every run (DESIGN.md §3.1); `Props.C03.C03_current` pins every one of them (and the index expressions and
+bounds of the walk-up loop, which the structural `walkUp` below does not take from there).
 
 Modelling assumptions (stated, not verified; the correspondence stream C03 exercises them):
 * a node occupies exactly one position of the tree, therefore the Go pointer test
@@ -48,6 +56,15 @@ def right : Tree α → Tree α
 def isNil : Tree α → Bool
   | .nil => true
   | .node _ _ _ => false
+
+/-- the direction named by an `…IsLeft` fact of `Gen.Cursor` -/
+def side (isLeft : Bool) : Dir := if isLeft then .L else .R
+
+/-- `n.left` / `n.right` -/
+def child (d : Dir) (t : Tree α) : Tree α :=
+  match d with
+  | .L => left t
+  | .R => right t
 
 /-- a non-empty path: root subtree and directions -/
 structure Pos (α : Type) where
@@ -104,19 +121,19 @@ inductive Found (α : Type) where
 
 /-- `findNext` (precondition: valid) -/
 def findNext (p : Pos α) : Found α :=
-  match right p.cur with
+  match child (side Gen.Cursor.nextChildIsLeft) p.cur with
   | .node l x r => .child (.node l x r)
   | .nil =>
-    match walkUp .L p.dirs p.dirs.length with
+    match walkUp (side Gen.Cursor.nextWalkIsLeft) p.dirs p.dirs.length with
     | some j => .anc j
     | none => .none
 
 /-- `findPrev` -/
 def findPrev (p : Pos α) : Found α :=
-  match left p.cur with
+  match child (side Gen.Cursor.prevChildIsLeft) p.cur with
   | .node l x r => .child (.node l x r)
   | .nil =>
-    match walkUp .R p.dirs p.dirs.length with
+    match walkUp (side Gen.Cursor.prevWalkIsLeft) p.dirs p.dirs.length with
     | some j => .anc j
     | none => .none
 
@@ -135,13 +152,33 @@ def spineR : Tree α → List Dir
     | .nil => []
     | .node _ _ _ => .R :: spineR r
 
+/-- the directions appended by the descent loops, `d` being the child link they follow -/
+def spine (d : Dir) (t : Tree α) : List Dir :=
+  match d with
+  | .L => spineL t
+  | .R => spineR t
+
+/-- `c.path = c.path[:n]`: the first `n` nodes of the path, i.e. the first `n-1` directions; an empty path
+is the invalid cursor -/
+def pathTake (p : Pos α) (n : Int) : Option (Pos α) :=
+  if n.toNat = 0 then none else some { p with dirs := p.dirs.take (n.toNat - 1) }
+
+/-- `HasNext`: `n, i := c.findNext(); return n != nil || i >= 0` -/
 def hasNext : Cursor α → Bool
   | none => false
-  | some p => match findNext p with | .child _ => true | .anc _ => true | .none => false
+  | some p =>
+    match findNext p with
+    | .child _ => Gen.Cursor.hasNextOf true Gen.Cursor.nextChildIdx
+    | .anc j => Gen.Cursor.hasNextOf false j
+    | .none => Gen.Cursor.hasNextOf false Gen.Cursor.nextNotFound
 
 def hasPrev : Cursor α → Bool
   | none => false
-  | some p => match findPrev p with | .child _ => true | .anc _ => true | .none => false
+  | some p =>
+    match findPrev p with
+    | .child _ => Gen.Cursor.hasPrevOf true Gen.Cursor.prevChildIdx
+    | .anc j => Gen.Cursor.hasPrevOf false j
+    | .none => Gen.Cursor.hasPrevOf false Gen.Cursor.prevNotFound
 
 /-- `Next`: descend `min, min.left, …` (appending every node), or truncate to `path[:j+1]`, or
 invalidate -/
@@ -149,51 +186,61 @@ def next : Cursor α → Cursor α
   | none => none
   | some p =>
     match findNext p with
-    | .child m => some { p with dirs := p.dirs ++ .R :: spineL m }
-    | .anc j => some { p with dirs := p.dirs.take j }
-    | .none => none
+    | .child m =>
+      some { p with dirs := p.dirs ++ side Gen.Cursor.nextChildIsLeft :: spine (side Gen.Cursor.nextDescendIsLeft) m }
+    | .anc j => if Gen.Cursor.nextTruncates j then pathTake p (Gen.Cursor.nextTruncLen j) else none
+    | .none =>
+      if Gen.Cursor.nextTruncates Gen.Cursor.nextNotFound then pathTake p (Gen.Cursor.nextTruncLen Gen.Cursor.nextNotFound)
+      else none
 
 def prev : Cursor α → Cursor α
   | none => none
   | some p =>
     match findPrev p with
-    | .child m => some { p with dirs := p.dirs ++ .L :: spineR m }
-    | .anc j => some { p with dirs := p.dirs.take j }
-    | .none => none
+    | .child m =>
+      some { p with dirs := p.dirs ++ side Gen.Cursor.prevChildIsLeft :: spine (side Gen.Cursor.prevDescendIsLeft) m }
+    | .anc j => if Gen.Cursor.prevTruncates j then pathTake p (Gen.Cursor.prevTruncLen j) else none
+    | .none =>
+      if Gen.Cursor.prevTruncates Gen.Cursor.prevNotFound then pathTake p (Gen.Cursor.prevTruncLen Gen.Cursor.prevNotFound)
+      else none
 
 def hasLeft : Cursor α → Bool
   | none => false
-  | some p => !isNil (left p.cur)
+  | some p => !isNil (child (side Gen.Cursor.hasLeftIsLeft) p.cur)
 
 def hasRight : Cursor α → Bool
   | none => false
-  | some p => !isNil (right p.cur)
+  | some p => !isNil (child (side Gen.Cursor.hasRightIsLeft) p.cur)
 
 /-- `HasParent`: `len(c.path) > 1` -/
 def hasParent : Cursor α → Bool
   | none => false
-  | some p => decide (p.dirs.length + 1 > 1)
+  | some p => Gen.Cursor.hasParentTest (p.dirs.length + 1 : Nat)
 
 def goLeft : Cursor α → Cursor α
   | none => none
-  | some p => if isNil (left p.cur) then none else some { p with dirs := p.dirs ++ [.L] }
+  | some p =>
+    if isNil (child (side Gen.Cursor.leftIsLeft) p.cur) then none
+    else some { p with dirs := p.dirs ++ [side Gen.Cursor.leftIsLeft] }
 
 def goRight : Cursor α → Cursor α
   | none => none
-  | some p => if isNil (right p.cur) then none else some { p with dirs := p.dirs ++ [.R] }
+  | some p =>
+    if isNil (child (side Gen.Cursor.rightIsLeft) p.cur) then none
+    else some { p with dirs := p.dirs ++ [side Gen.Cursor.rightIsLeft] }
 
 /-- `Up`: `c.path = c.path[:len(c.path)-1]`, which empties the path at the root -/
 def up : Cursor α → Cursor α
   | none => none
-  | some p => if p.dirs.length = 0 then none else some { p with dirs := p.dirs.dropLast }
+  | some p => pathTake p (Gen.Cursor.upLen (p.dirs.length + 1 : Nat))
 
 def min : Cursor α → Cursor α
   | none => none
-  | some p => some { p with dirs := p.dirs ++ spineL p.cur }
+  | some p => some { p with dirs := p.dirs ++ spine (side Gen.Cursor.minIsLeft) p.cur }
 
 def max : Cursor α → Cursor α
   | none => none
-  | some p => some { p with dirs := p.dirs ++ spineR p.cur }
+  | some p => some { p with dirs := p.dirs ++ spine (side Gen.Cursor.maxIsLeft) p.cur }
 
 /-- `Inorder(yield)`: `(consumer state, completed)`; nothing happens on an invalid cursor -/
 def inorderF {σ : Type} (f : Yield σ α) (c : Cursor α) (s : σ) : σ × Bool :=
